@@ -405,6 +405,8 @@ if __name__ == '__main__':
 
 METHODS = ['_shift_settings_idx', 'ljust', 'rjust', 'center', 'assign_str',
            dict(py='insert_settings', point=True, types={'apply': 'bool', 'settings': 'slist', 'topmost': 'bool'}),
+           dict(py='__next__', iter=True, lean='iterStep', after_target='settings',
+                entry=[('current_settings', 'slist'), ('settings', 'point'), ('with_assertions', 'bool')]),
            dict(py='apply_formatting', lean='applyCore', after='_scrub_ansi_settings', join=True,
                 entry=[('ansi_settings', 'slist'), ('start', 'int'), ('end', 'int'), ('topmost', 'bool')])]
 
@@ -416,8 +418,9 @@ def generate_methods(repo):
     tree = ast.parse(open(path).read())
     fns = {f.name: f for f in class_methods(tree, 'AnsiString')}
     pfns = {f.name: f for f in class_methods(tree, '_AnsiSettingPoint')}
+    ifns = {f.name: f for f in class_methods(tree, '_AnsiSettingsIterator')}
     L = ['/-  GENERATED by harness/translate.py (harness/pyobj.py) from the working tree of the repository — do not edit.',
          '    Methods of `class AnsiString` that read and write `_s` / `_fmts`, translated statement by statement. -/',
          'import AnsiModel.Obj', 'import AnsiModel.Replay', 'import AnsiModel.Generated.Wrappers', '', 'namespace Gen', '',
-         pyobj.translate(fns, METHODS, pfns), 'end Gen', '']
+         pyobj.translate(fns, METHODS, pfns, ifns), 'end Gen', '']
     return '\n'.join(L)
